@@ -643,7 +643,7 @@ def c17(run, scratch):
         if cases:
             c = cases[len(cases) // 2]
             run.sample({"levels": c["levels"]})
-    text_trace(run, scratch, "Trace_Text_rt", "rt", 40 if t else 10, 300 if t else 150, _c17_corrupt,
+    text_trace(run, scratch, "Trace_Text_rt", "rt", 20 if t else 10, 150, _c17_corrupt,
                lambda e: e["t"] == "rt", workers=14 if t else 10)
     # cause chains of 3000 levels through parse / Display / == / Clone / Debug / Drop; 200000 levels: finding F8
     scale_probes(run, scratch, ["stacktrace-depth-moderate", "stacktrace-depth"], only=["parse", "display", "eq", "clone", "debug", "drop"])
@@ -1037,7 +1037,7 @@ def _c18_corrupt(ev):
 def c18(run, scratch):
     t = run.tier == "thorough"
     files = SMALL_CORPUS[:2] + ([BIG_CORPUS[0]] if t and BIG_CORPUS else [])
-    events = harness_trace(scratch, "uuid", "uuid", ["--seed", run.seed, "--n", 60 if t else 20, "--max", 262144 if t else 8192,
+    events = harness_trace(scratch, "uuid", "uuid", ["--seed", run.seed, "--n", 60 if t else 20, "--max", 65536 if t else 8192,
                                                      "--files", ",".join(files)])
     run.sample({"input_len": len(events[2]["bytes"]), "uuid": bytes(events[2]["uuid"]).hex(),
                 "repeats_in_other_processes": len(events[2]["again"]) - 1})
@@ -1081,7 +1081,7 @@ def c20(run, scratch):
     if r.violation:
         run.violation("MC_Sharing_live", {"signature": {"step": "MC_Sharing_live"}, "tlc": r.violation, "output": r.out[-4000:]})
     run.add_tlc("MC_Sharing_live", r, note="temporal: every thread that keeps stepping finishes its query (running ~> finished) under per-thread WF")
-    events = harness_trace(scratch, "threads", "threads", ["--seed", run.seed, "--n", 60 if t else 12, "--queries", 300 if t else 120,
+    events = harness_trace(scratch, "threads", "threads", ["--seed", run.seed, "--n", 20 if t else 12, "--queries", 150 if t else 120,
                                                           "--first-use", 400000 if t else 200000,
                                                            "--files", ",".join(SMALL_CORPUS[:3] if t else SMALL_CORPUS[:1])])
     qe = [e for e in events if e["t"] == "q"]
